@@ -226,6 +226,6 @@ fn check(c: &SplitPair, obs: &mut Obs) -> Verdict {
 pub fn def() -> PropDef {
     let mut d = PropDef::new("C15", "window scenarios H (1-4 affiliates incl. registered, a quarter with an opening position of the default affiliate, an anchor loss sale, 0-7 further buys/sales/RoC at boundary-weighted offsets; all share quantities multiples of 3 and later per-share amounts multiples of a, so the restated history is exactly representable) and H' = H with an a-for-b split inserted at a random position (same day before a row, or the day before) as one row for all affiliates or one row per affiliate (a third of the ratios that factor are entered as two successive same-day splits), later quantities x a/b and later per-share amounts x b/a; ratios 2-1, 3-1, 4-1, 5-1, 10-1, 1-2, 1-3, 1-4, 1-6, 1-10, 3-2, 2-3, 4-3, 5-2, 7-3, 1.5-1. Both runs must agree on accept/reject; every corresponding row must show the same gain, superficial loss, total ACB and automatic adjustments (1e-9) and share balances scaled by a/b. Non-trivial = the split lies within 30 days of a loss sale, or an affiliate holds nothing at the split, or the opening holder has no rows of its own. Distinct = distinct case content.");
     d.assumptions = vec!["base histories contain no other split", "USD rows are not used (rates are irrelevant to neutrality)"];
-    d.subs.push(Box::new(Sub::<SplitPair> { name: "neutral", cases_quick: 60_000, cases_thorough: 600_000, strategy: Box::new(strategy), to_json: SplitPair::to_json, from_json: SplitPair::from_json, check }));
+    d.subs.push(Box::new(Sub::<SplitPair> { name: "neutral", cases_quick: 60_000, cases_thorough: 1_200_000, strategy: Box::new(strategy), to_json: SplitPair::to_json, from_json: SplitPair::from_json, check }));
     d
 }
